@@ -2,24 +2,34 @@
 from .plan import register
 
 BASE = ['elements']
+NUM = ['z3', 'cpython', 'numpy-scalar']
+NET = ['z3', 'cpython', 'numpy-scalar', 'numpy-array', 'solve', 'ring']
 
-register('C02', level='other', sidecars=BASE + ['components', 'periodic', 'transformers', 'solution'],
-         trusted=['z3', 'cpython', 'numpy-scalar'],
+register('C01', level='other', sidecars=BASE + ['solution', 'net_bounded', 'net_ops_bounded'], trusted=NET,
+         explanation='proved: element value laws, predicates, voltage = potential difference, power = v*conj(i) (contracts on the real functions, all inputs). '
+                     'bounded: the full solver on five fixed topologies with ALL element values symbolic - KCL at every node incl. the reference node, KVL, '
+                     'every element law in the library reference directions, Tellegen, totality ("a valid network never fails to solve")')
+register('C02', level='other', sidecars=BASE + ['components', 'periodic', 'transformers', 'solution', 'net_ops_bounded'], trusted=NUM,
          explanation='contracts on the component->branch translators (exact immittances and source phasors at every w, frequency gating), on '
                      'the DC/complex solution wrappers (peak vs RMS scaling, real part at w=0) and on the element value helpers; the network '
                      'solver underneath is covered under C01')
-register('C05', level='other', sidecars=BASE + ['solution'],
-         trusted=['z3', 'cpython', 'numpy-scalar'],
-         explanation='contracts on get_power of the network, DC and complex solutions plus the loop-free sign lemmas for R, L, C element laws')
-register('C07', level='proof', sidecars=BASE + ['components', 'periodic', 'transformers'],
-         trusted=['z3', 'cpython', 'numpy-scalar'],
+register('C03', level='other', sidecars=['net_bounded', 'net_ops_bounded'], trusted=NET,
+         explanation='bounded: renamed / permuted / terminal-reversed / re-referenced copies of topology T1 give the same physical results for all element values; '
+                     'change of reference shifts all potentials by one constant')
+register('C04', level='other', sidecars=BASE + ['net_bounded', 'net_ops_bounded'], trusted=NET,
+         explanation='bounded: superposition, scaling and zero-in/zero-out on topologies T1 and T3 through the library source-zeroing operations, all values symbolic')
+register('C05', level='other', sidecars=BASE + ['solution', 'net_bounded'], trusted=NET,
+         explanation='contracts on get_power of the network, DC and complex solutions plus the loop-free sign lemmas for R, L, C element laws; Tellegen on the bounded topologies')
+register('C06', level='other', sidecars=BASE + ['net_bounded', 'net_ops_bounded'], trusted=NET,
+         explanation='bounded: port impedance of series/parallel ladders (symmetry, reference independence, identical nodes, element impedance), open-circuit voltage on T1')
+register('C07', level='proof', sidecars=BASE + ['components', 'periodic', 'transformers', 'net_ops_bounded'], trusted=NUM,
          explanation='one contract per translator and constructor, dispatch table contract')
-register('C08', level='proof', sidecars=['periodic'],
-         trusted=['z3', 'cpython', 'numpy-scalar'],
+register('C08', level='proof', sidecars=['periodic'], trusted=NUM,
          explanation='closed forms, a/b/c forms, lookup, time functions on open pieces')
-register('C17', level='proof', sidecars=BASE + ['components', 'loaders', 'dump_load'],
-         trusted=['z3', 'cpython', 'numpy-scalar'],
+register('C16', level='other', sidecars=BASE + ['net_ops_bounded'], trusted=NET,
+         explanation='bounded: short-circuit contraction (single, chains in both listing orders, star, parallel + reference, exempted), open removal, element removal, '
+                     'reference switch, passive network - structure clauses plus equality of the solver result before/after for all element values')
+register('C17', level='proof', sidecars=BASE + ['components', 'loaders', 'dump_load'], trusted=NUM + ['json'],
          explanation='loader table, to_complex, load_network, dump_load round trips under the assumed json/yaml contract')
-register('C19', level='proof', sidecars=BASE + ['components', 'periodic', 'loaders', 'dump_load'],
-         trusted=['z3', 'cpython', 'numpy-scalar'],
+register('C19', level='proof', sidecars=BASE + ['components', 'periodic', 'loaders', 'dump_load', 'net_ops_bounded'], trusted=NUM,
          explanation='raises-iff contracts on constructors and loaders')
